@@ -154,7 +154,7 @@ pub open spec fn header_fits(h: Header) -> bool { 0 < header_enc(h).len() <= 204
 
 impl Oplog {
     /*@ fn src/oplog/mod.rs Oplog::insert_header
-    tags: C02 C06 C12
+    tags: C02 C06 C12 C10
     result: r
     requires:
         header_fits(*header),
@@ -236,7 +236,7 @@ pub open spec fn is_write(info: StoreInfo, store: Store, at: int, data: Seq<u8>)
 
 impl Oplog {
     /*@ fn src/oplog/mod.rs Oplog::append_entries
-    tags: C01 C02 C06
+    tags: C01 C02 C06 C10
     result: r
     requires:
         entries_ok(batch@), batch@.len() <= 4,
@@ -289,7 +289,7 @@ pub open spec fn clear_entry_enc(start: u64, length: u64) -> Seq<u8> { seq![8u8]
 
 impl Oplog {
     /*@ fn src/oplog/mod.rs Oplog::clear
-    tags: C01 C02 C06
+    tags: C01 C02 C06 C10
     result: r
     requires:
         start <= end,
@@ -318,7 +318,7 @@ impl Oplog {
     @*/
 
     /*@ fn src/oplog/mod.rs Oplog::flush
-    tags: C02 C06 C12
+    tags: C02 C06 C12 C10
     result: r
     requires:
         header_fits(*header)
@@ -449,7 +449,7 @@ impl OplogOpenOutcome {
 
 impl Oplog {
     /*@ fn src/oplog/mod.rs Oplog::append_changeset
-    tags: C01 C02 C04 C05 C06
+    tags: C01 C02 C04 C05 C06 C10
     result: r
     requires:
         changeset.upgraded ==> changeset.hash is Some && changeset.signature is Some,
@@ -525,7 +525,7 @@ pub open spec fn live_slot(existing: Seq<u8>) -> int {
 
 impl Oplog {
     /*@ fn src/oplog/mod.rs Oplog::open ; noisolation
-    tags: C01 C02 C06 C07 C12
+    tags: C01 C02 C06 C07 C12 C10
     result: r
     requires:
         info is Some ==> info->Some_0.data is Some && info->Some_0.data->Some_0@.len() <= 0xffff_ffff_ffff
